@@ -602,11 +602,13 @@ let rec judge_case (u : uni) (case : sx) (obs : sx list) : verdict =
                     String.map (fun c -> match c with ' ' -> '_' | '(' -> '<' | ')' -> '>' | c -> c) p in
                   let exp = ref [] in
                   let may = ref [] in   (* equal to the field's InitDefault value: decoded or left alone, both fine *)
+                  let content = ref [] in
                   let rec walk ?(dflt : val0 option) (t : ty) (x : val0) (path : string) (nc : bool) =
                     match t, x with
                     | TPtr t', VP (Some x') -> walk t' x' (path ^ "*") nc
                     | (TString | TBinary), VB (_, s) ->
                         if nc && s <> [] then begin
+                          content := (tok path, s) :: !content;
                           match dflt with
                           | Some (VB (_, s')) when s' = s -> may := (tok path, List.length s) :: !may
                           | _ -> exp := (tok path, List.length s) :: !exp
@@ -632,6 +634,21 @@ let rec judge_case (u : uni) (case : sx) (obs : sx list) : verdict =
                       (String.concat " " (List.map (fun (p, l) -> Printf.sprintf "%s:%d" p l) expected))
                       (String.concat " " (List.map (fun (p, l) -> Printf.sprintf "%s:%d" p l) gotpl)));
                   List.iter (fun (p, l, c) -> if l <> c then fail v "prop-nocopy-cap" (Printf.sprintf "%s len %d cap %d" p l c)) got;
+                  (* exactly: the view starts where this value's payload is encoded -- the bytes there are
+                     the value and the four bytes before them are its length *)
+                  let inp = Array.of_list (List.map int_of_n bs) in
+                  List.iter (function
+                    | L [A p; A off; A ln; A _] ->
+                        let off = int_of_string off and ln = int_of_string ln in
+                        (match List.assoc_opt p !content with
+                         | Some sbytes ->
+                             let want = List.map int_of_n sbytes in
+                             let here = if off >= 0 && off + ln <= Array.length inp then Array.to_list (Array.sub inp off ln) else [] in
+                             if here <> want then fail v "prop-nocopy-view" (Printf.sprintf "%s: the input at offset %d does not hold the value" p off)
+                             else if off < 4 || (inp.(off-4) lsl 24) lor (inp.(off-3) lsl 16) lor (inp.(off-2) lsl 8) lor inp.(off-1) <> ln then
+                               fail v "prop-nocopy-view" (Printf.sprintf "%s: offset %d is not the payload of a %d-byte string in the message" p off ln)
+                         | None -> ())
+                    | _ -> ()) inb;
                   if flipout <> "flip-outside:same" then fail v "prop-input-alias" "changing input bytes outside the nocopy values changed the decoded value";
                   List.iter (function L [A p; A r] -> if r <> "changed" then fail v "prop-nocopy-view" (p ^ " does not follow the buffer") | _ -> ()) flips
               | DOk _, _ -> fail v "harness" "unparsable mem observation"
